@@ -97,6 +97,12 @@ fn mkfs_vs_reader(n: u64) -> i32 {
                     continue;
                 }
             };
+            // (a partition-table entry that deliberately states fewer blocks than the boot sector: the geometry is
+            // the boot sector's, only the recorded size of the partition differs)
+            let mut g = g;
+            if v.mbr_short {
+                g.part_blocks = o.geom.part_blocks;
+            }
             if g != o.geom {
                 println!("run {} geometry mismatch\n {:?}\n {:?}", i, g, o.geom);
                 bad += 1;
